@@ -5,7 +5,7 @@
 # patched scratch tree through a scratch copy of the harness. Nothing touches /repo or /verif.
 set -u
 MD="${1:?}"; OUT="${2:?}"; PAT="${3:-C??-?}"
-WT=/tmp/wt-confirm; MH=/tmp/mh
+WT="${CONFIRM_WT:-/tmp/wt-confirm}"; MH="${CONFIRM_MH:-/tmp/mh}"
 export CARGO_NET_OFFLINE=true
 rm -rf "$WT" "$MH"; git -C /repo worktree prune
 git -C /repo worktree add -q --detach "$WT" HEAD || exit 2
